@@ -225,14 +225,20 @@ def check(ctx):
     R4 = ctx.rule("R4", "MainEventLoop::run re-queues every finished renewal and only returns when nothing is queued")
     runb = prog.async_body(RUN)
     ie = runb.calls_to("futures_util::stream::futures_unordered::FuturesUnordered::is_empty")
-    ctx.floor(R4, "renewals.is_empty() test", len(ie), 1)
+    nxt = [c for c in runb.calls if c.fn == POLL and c.res and "stream::next::Next" in c.res and c.bb in runb.live_blocks()]
+    # the set is known to be empty on the true edge of `renewals.is_empty()` and on the `None` edge of `renewals.next().await`
+    # (FuturesUnordered yields None only when it holds no future): `loop { if is_empty {return} .. }` and `while let Some(..) = next().await`
     tr_edges = []
     for c in ie:
         t, f = call_true_false_edges(runb, c)
         tr_edges += t
+    for c in nxt:
+        for t in try_edges(runb, [c.dest["l"]]):
+            if not t["adt"].endswith("Poll"):
+                tr_edges += [(t["bb"], tg) for tg in t["err"]]
+    ctx.floor(R4, "tests that the renewal set is empty (is_empty() / None from next().await)", len(tr_edges), 1)
     good, hit = unreachable_without(runb, runb.return_blocks(), removed_edges=tr_edges)
     ctx.require(R4, good and tr_edges, where(runb, (hit or [0])[0]), "run() returns only when the renewal set is empty", [RUN, "exit"])
-    nxt = [c for c in runb.calls if c.fn == POLL and c.res and "stream::next::Next" in c.res and c.bb in runb.live_blocks()]
     pushes = runb.calls_to("futures_util::stream::futures_unordered::FuturesUnordered::push")
     loop_pushes = [p for p in pushes if nxt and runb.scc_of(p.bb) and nxt[0].bb in runb.scc_of(p.bb)]
     ctx.floor(R4, "renewals.next().await in run", len(nxt), 1)
@@ -243,7 +249,7 @@ def check(ctx):
         some_targets = [tg for t in item_tests for tg in t["ok"]]
         for tg in some_targets:
             r = runb.reachable([tg], removed_nodes=[p.bb for p in loop_pushes])
-            ctx.require(R4, not ({c.bb for c in ie} & r), where(runb, tg), "a finished renewal is pushed back before the loop continues", [RUN, "not-requeued"])
+            ctx.require(R4, not (({c.bb for c in ie} | {c.bb for c in nxt}) & r), where(runb, tg), "a finished renewal is pushed back before the loop continues", [RUN, "not-requeued"])
         for p in loop_pushes:
             sl = arg_origins(p, 1)
             ctx.require(R4, any(x.is_(RENEW) for x in sl.calls), p.where(), "what is re-queued is renew_certificate(..) of the finished task's own handles", [RUN, "requeue-what"])
